@@ -50,6 +50,7 @@ package callbacks
 //@   min-sites 1
 //@   assert not-skipped: !db.Config.SkipDefaultTransaction [C19,C05]
 //@   assert no-pending-error: db.Error == nil [C05]
+//@   assert begun-on-the-operations-handle: arg0 == db [C05,C18]
 //@ site implicit-finish
 //@   match call gorm.(*DB).Commit | call gorm.(*DB).Rollback
 //@   in callbacks.CommitOrRollbackTransaction
@@ -458,8 +459,8 @@ package callbacks
 //@   in callbacks.Delete$1
 //@   min-sites 2
 //@   entry keyLookups == 0
-//@   assert first-the-deleted-value: keyLookups == 0 ==> arg1 == db.Statement.ReflectValue [C09]
-//@   assert then-the-model-value: keyLookups >= 1 ==> ref(arg1.ptr) == uf("payloadRef", boxof(db.Statement.Model)) [C09]
+//@   assert first-the-deleted-value: keyLookups == 0 ==> arg1 == db.Statement.ReflectValue [C09,C02]
+//@   assert then-the-model-value: keyLookups >= 1 ==> ref(arg1.ptr) == uf("payloadRef", boxof(db.Statement.Model)) [C09,C02]
 //@ site key-condition-only-with-key-values
 //@   match call gorm.(*Statement).AddClause
 //@   in callbacks.Delete$1
